@@ -652,7 +652,7 @@ Ltac fok :=
 
 (** the coded entries (dictionary / Huffman inside) and the two stated exceptions are excluded *)
 Definition structural (n : N) : bool :=
-  negb (N.eqb n 21 || N.eqb n 29 || ((41 <=? n) && (n <=? 51)) || N.eqb n 58)%N.
+  negb (N.eqb n 21 || N.eqb n 29 || ((41 <=? n) && (n <=? 51)) || N.eqb n 58 || N.eqb n 69)%N.
 
 Theorem catalogue_merge_fresh chk szs n e : entry chk szs n = Some e -> structural n = true ->
   exists SP : RSpec (mr e), @RegionOK (mr e) SP /\
